@@ -7,7 +7,7 @@ Require Import BB.Base.Str BB.Base.Xml BB.Base.Dict BB.Model.PegSyntax BB.Model.
 Require Import BB.Gen.Grammar BB.Gen.TablesTypes BB.Gen.TablesXsl BB.Gen.TablesReadme.
 Require Import BB.Proofs.Tables BB.Proofs.KeywordElement BB.Proofs.HierShape.
 Require Import BB.Model.Eid BB.Model.EidSpec BB.Model.PreParse BB.Model.Convert BB.Gen.TablesParser BB.Gen.TablesLibs BB.Proofs.EscapeLossless.
-Require Import BB.Proofs.PegEscape BB.Proofs.PegPlain BB.Proofs.PegLine BB.Proofs.LineRule BB.Proofs.PlainLine BB.Proofs.PlainLineConvert BB.Proofs.HierElement BB.Proofs.HierElementConvert.
+Require Import BB.Proofs.PegEscape BB.Proofs.PegPlain BB.Proofs.PegLine BB.Proofs.LineRule BB.Proofs.PlainLine BB.Proofs.PlainLineConvert BB.Proofs.HierElement BB.Proofs.HierElementConvert BB.Proofs.HierChain.
 
 (* README.md against akn.peg and types.py (all three regenerated from /repo on every run) *)
 Theorem C04_readme_keywords_in_grammar : subset readme_line_keywords (keywords akn_peg) = true.
@@ -157,4 +157,32 @@ Example C04_hier_element_converts_example :
           (of_string "SUBSEC (3A) - Powers * of the {Minister}" ++ NL :: of_string "   may / delegate 50% of_them" ++ [NL])
   = OkR (hier_x (of_string "subsection") [(EID, of_string "chp_2__subsec_3A")] [(EID, of_string "chp_2__subsec_3A__p_1")]
                 (of_string "(3A)") (of_string "Powers * of the {Minister}") (of_string "may / delegate 50% of_them")).
+Proof. vm_compute. reflexivity. Qed.
+
+(* Indentation nesting becomes element nesting, to ANY depth: a chain of hierarchical elements - each `KEYWORD num - heading`, each
+   nested in the one before, any of the 34 keywords at every level - around one plain line.  Rule hier_element of the regenerated
+   grammar reads the whole nest and leaves nothing over, and to_dict gives the hier nodes nested in the same way ([dn_spec]: at each
+   level the keyword's element, the num, the heading and the next level as only child; innermost the paragraph).  By induction over
+   the depth, on top of the one-level theorem with its child left abstract (Proofs/HierChain.v). *)
+Theorem C04_hier_chain_yields_nested_nodes : forall kw n hs c' ls pre f f',
+  Forall level_ok ((kw, n, hs) :: c') -> line_segs_ok ls ->
+  exists tree d,
+    run akn_peg (40 + (10 * length c' + f)) (Ref (of_string "hier_element")) (chain_text ((kw, n, hs) :: c') ls) (len_N pre)
+    = Ok [] (len_N pre + len_N (chain_text ((kw, n, hs) :: c') ls)) tree
+    /\ is_root tree = false
+    /\ to_dict (pre ++ chain_text ((kw, n, hs) :: c') ls) (3 + (length c' + f')) tree = OkR d
+    /\ dn_spec ((kw, n, hs) :: c') ls d.
+Proof. exact hier_chain_yields_nested_nodes. Qed.
+Print Assumptions C04_hier_chain_yields_nested_nodes.
+
+(* the model on a nest of three, through the whole pipeline (an evaluation, for orientation) *)
+Example C04_nest_of_three :
+  convert (of_string "/akn/za/act/2009/1") (of_string "hier_element") []
+          (of_string "PART 1 - One" ++ NL :: of_string "  CHAP 2 - Two" ++ NL :: of_string "      SEC 3. - Three" ++ NL :: of_string "         text" ++ [NL])
+  = OkR (El (of_string "part") [(EID, of_string "part_1")]
+          [El (of_string "num") [] [Tx (of_string "1")]; El (of_string "heading") [] [Tx (of_string "One")];
+           El (of_string "chapter") [(EID, of_string "part_1__chp_2")]
+             [El (of_string "num") [] [Tx (of_string "2")]; El (of_string "heading") [] [Tx (of_string "Two")];
+              hier_x (of_string "section") [(EID, of_string "part_1__chp_2__sec_3")] [(EID, of_string "part_1__chp_2__sec_3__p_1")]
+                     (of_string "3.") (of_string "Three") (of_string "text")]]).
 Proof. vm_compute. reflexivity. Qed.
